@@ -3,7 +3,8 @@
 The REAL Serializable.toJson is executed while the pre-state is built (on an instance of a class of one of the documented
 annotated shapes, contracts/shapes/shapes_json.py, with SYMBOLIC leaf values), then the REAL fromJson is verified on its output.
 Leaf values (ints, floats, bools, strings, enum members, nested objects' leaves, dictionary keys) are unbounded; the container
-length dimension is bounded to 0..2 elements and None (stated in the manifest), like the C13 container round trips."""
+length dimension is bounded (0..3 elements for lists and dicts, 0..2 and 4 for sets, and None; stated in the manifest), like the
+C13 container round trips."""
 import z3
 from pyvc.dsl import contract, lemma, S, LoopSpec
 from pyvc import ops
@@ -62,7 +63,7 @@ def make_instance(E, shape, n):
             return new(E, 'Maps', di=None, ds=None, dc=None)
         ki = distinct(E, [E.int('ki%d' % i) for i in range(n)])
         ks = distinct(E, [E.str('ks%d' % i) for i in range(n)])
-        members = [E.member(MOD + '.Color', m) for m in ('NONE', 'RED', 'GREEN')][:n]
+        members = [E.member(MOD + '.Color', m) for m in ('NONE', 'RED', 'GREEN', 'BLUE')][:n]
         return new(E, 'Maps', di=mk_dict([(ki[i], E.str('vi%d' % i)) for i in range(n)]),
                    ds=mk_dict([(ks[i], E.int('vs%d' % i)) for i in range(n)]),
                    dc=mk_dict([(members[i], leaf(E, 'dc%d' % i)) for i in range(n)]))
@@ -144,7 +145,7 @@ def plain(v, key=False):
     return False
 
 
-for _shape, _ns in (('Basic', (0,)), ('Lists', (None, 0, 1, 2)), ('Maps', (None, 0, 1, 2)), ('Others', (None, 0, 1, 2))):
+for _shape, _ns in (('Basic', (0,)), ('Lists', (None, 0, 1, 2, 3)), ('Maps', (None, 0, 1, 2, 3)), ('Others', (None, 0, 1, 2, 4))):
     for _n in _ns:
         @contract('serializable.Serializable.fromJson', props=['C15'], variant='roundtrip-%s-%s' % (_shape, 'none' if _n is None else _n))
         class _:
